@@ -52,9 +52,13 @@ package protocol
 //@ func (*Tunnel).Write
 //@   requires[C10] wf: t != nil && t.transportOut != nil
 //@   requires[C01] history: mayWrite(pkt)
-//@   assigns t.BytesSent, #lastType, #lastStatus, #errSent, #hsOK, #tcOK, #taOK, #ccOK, #closeOK
+//@   assigns t.BytesSent, #lastType, #lastStatus, #errSent, #hsOK, #tcOK, #taOK, #ccOK, #closeOK, region(map:(_ BitVec 32):ghost.held)
 //@   ensures[C01] written: written(pkt)
 //@   site transport.Transport.WritePacket requires[C06] verbatim: arg1 == pkt && arg0 == t.transportOut
+// the packet loop and the relay goroutine both write: one writer at a time (a websocket connection panics on
+// concurrent writes, in the relay goroutine that ends the process), and the lock is released again
+//@   site transport.Transport.WritePacket requires[C10,C11] serialized: held(&t.writeMu)
+//@   ensures[C10,C11] released: !held(&t.writeMu)
 //@   nopanic[C10]
 
 //@ func (*Tunnel).Read
@@ -206,7 +210,7 @@ package protocol
 //@       && (p.state >= 2 && #cookieRequired ==> #cookieOK)
 //@       && !#errSent && !#closeOK
 //@   loop 0 invariant[C16,C17] outcomes: #capsMatched == (p.state >= 1) && (p.state < 2 ==> !#cookieOK) && (p.state < 4 ==> !#hostOK)
-//@   assigns[C07] p.tunnel.pending
+//@   assigns[C07] p.tunnel.pending, region(map:(_ BitVec 32):ghost.held)
 //@   assigns[C07] p.state, p.tunnel.rwc, p.tunnel.TargetServer, p.tunnel.BytesSent, p.tunnel.BytesReceived, p.tunnel.LastSeen, p.gw.IdleTimeout
 //@   assigns[C07] p.tunnel.RemoteAddr, region(identity.User.userName) at p.tunnel.User
 //@   assigns #capsMatched, #capsClient, #hsMajor, #hsMinor, #hsExtAuth
@@ -243,16 +247,22 @@ package protocol
 //@   ensures[C01] fresh: result != nil && fresh(result) && result.gw == gw && result.tunnel == tunnel && result.state == 0
 //@   nopanic[C10]
 
+// the registry is shared by the handler goroutines of all tunnels: it is only touched with connectionsMu held
+// (unsynchronised map writes end the whole process), and the lock is released again
 //@ func RegisterTunnel
 //@   requires[C10] t != nil
-//@   assigns Connections, region(map:Str:ref)
+//@   assigns Connections, region(map:Str:ref), region(map:(_ BitVec 32):ghost.held)
 //@   ensures[C11] registered: Connections != nil && mapHas(Connections, t.Id)
+//@   ensures[C07,C10] released: !held(&connectionsMu)
+//@   site mapupdate requires[C07,C10] locked: held(&connectionsMu)
 //@   nopanic[C10]
 
 //@ func RemoveTunnel
 //@   requires[C10] t != nil
-//@   assigns region(map:Str:ref)
+//@   assigns region(map:Str:ref), region(map:(_ BitVec 32):ghost.held)
 //@   ensures[C11] removed: !mapHas(Connections, t.Id)
+//@   ensures[C07,C10] released: !held(&connectionsMu)
+//@   site builtin.delete requires[C07,C10] locked: held(&connectionsMu)
 //@   nopanic[C10]
 
 //@ func (*Gateway).handleWebsocketProtocol
